@@ -198,6 +198,17 @@ func containerSeeds(profile []byte) []hseed {
 	j2, _ := gen.BuildJPEG([]gen.JSeg{gen.SOI(), gen.ICCSeg(1, 1, profile), gen.APP(1, gen.Payload(5000, 1, true)), gen.DQT(0), gen.DHT(0, 0),
 		gen.SOF(0xC2, 8, 2, 3, gen.StdComps(1, 0x11)), gen.SOS(1, gen.EntropyBytes(40, 6)), gen.EOI()})
 	out = append(out, hseed{"jpeg-b", "jpeg", j2, walkJPEG(j2)})
+	// the legal maximum of 255 ICC chunks, all present (counters that are one byte wide)
+	{
+		segs := []gen.JSeg{gen.SOI(), gen.JFIF()}
+		p255 := gen.SplitICC(gen.Payload(255*9, 11, false), 255)
+		for q := 0; q < 255; q++ {
+			segs = append(segs, gen.ICCSeg(byte(q+1), 255, p255[q]))
+		}
+		segs = append(segs, gen.DQT(0), gen.SOF(0xC0, 8, 2, 3, gen.StdComps(1, 0x11)), gen.SOS(1, gen.EntropyBytes(40, 6)), gen.EOI())
+		j3, _ := gen.BuildJPEG(segs)
+		out = append(out, hseed{"jpeg-255", "jpeg", j3, walkJPEG(j3)})
+	}
 	w1, _ := gen.BuildWebP([]gen.WChunk{gen.VP8X(gen.VP8XICC, 55, 66), gen.WC("ICCP", profile), gen.VP8(55, 66, 0, 0, gen.VP8Body(40))}, -1)
 	out = append(out, hseed{"webp-x", "webp", w1, walkWebP(w1)})
 	w2, _ := gen.BuildWebP([]gen.WChunk{gen.VP8(7, 9, 1, 2, gen.VP8Body(40))}, -1)
@@ -446,6 +457,14 @@ func hostileCmd(args []string) error {
 		fmt.Fprintf(w, "#BEGIN %d %s\n", job, desc)
 		w.Flush()
 	}
+	// (0) every seed as it is (the matrix only ever runs mutated copies)
+	for _, s := range seeds {
+		if !mine() {
+			continue
+		}
+		begin("seed " + s.Name)
+		exercise(s.Struct, s.Data, map[string]interface{}{"src": "seed", "seed": s.Name, "job": job}, emit)
+	}
 	// (a) the field x boundary-value matrix from the specification
 	for ci, c := range cases {
 		for _, s := range seeds {
@@ -454,6 +473,9 @@ func hostileCmd(args []string) error {
 			}
 			ps := s.Fields[c.Field]
 			for occ, p := range ps {
+				if len(ps) > 6 && occ >= 3 && occ < len(ps)-3 {
+					continue // a field with hundreds of occurrences: the first and the last three
+				}
 				if !mine() {
 					continue
 				}
